@@ -53,7 +53,9 @@ func (pkg *ParamFmtPackage) ReadFrom(ch BytesChannel) error {
 	}
 	n += 2
 
-	pkg.Fmts = make([]FieldFmt, int(paramsCount))
+	// The fields are added as they are read - the count is sent by the
+	// server and the package may be read before it arrived completely.
+	pkg.Fmts = make([]FieldFmt, 0)
 
 	for i := 0; i < int(paramsCount); i++ {
 		param, readBytes, err := pkg.ReadFromField(ch)
@@ -80,7 +82,7 @@ func (pkg *ParamFmtPackage) ReadFrom(ch BytesChannel) error {
 		}
 
 		n += readBytes
-		pkg.Fmts[i] = param
+		pkg.Fmts = append(pkg.Fmts, param)
 	}
 
 	if n > totalBytes {
